@@ -361,6 +361,8 @@ impl Retrier {
         self.set_status(RetrierStatus::Running);
 
         tokio::spawn(async move {
+            #[cfg(feature = "verif")]
+            teos_common::verif::point(&format!("retrier.loop.begin:{}", self.tower_id));
             let r = retry_notify(
                 ExponentialBackoff {
                     max_elapsed_time: Some(Duration::from_secs(max_elapsed_time_secs as u64)),
@@ -373,6 +375,8 @@ impl Retrier {
                 },
             )
             .await;
+            #[cfg(feature = "verif")]
+            teos_common::verif::point(&format!("retrier.loop.end:{}", self.tower_id));
 
             match r {
                 Ok(_) => {
